@@ -3,12 +3,10 @@
 import json, subprocess
 props = [json.loads(l) for l in open('/verif/properties.jsonl')]
 TECH = "Rocq/Coq proof over hand-written model + vm_compute correspondence check"
-CLAIMS = {
- 'C19': ("Coq theorems (closed under the global context) over the Gallina model of the log reader, tally, cmp_failure_rate (u128 wrap written out and proved unreachable) and ranking (unique sorted permutation), plus the append-interleaving algebra; model tied to the code by differential runs of score --json / the cmp hook / parallel record processes. Partial: atomicity of one O_APPEND write is the kernel's, assumed and audited by strace.",
-         "Trusted: Coq kernel + vm_compute; hand-written model validated by sampling; JSON parsing not modelled (parse result by construction); harness; gen_tables.py; O_APPEND atomicity."),
- 'C11': ("Coq theorems over the Gallina model of the confirm-token store and the deploy/deploy_apply tool state machine: for every operation sequence a successful deploy_apply has yes, no dry_run and a token that is live (issued by this instance, unconsumed), fresh (< TTL from Gen.Tables), bound to the same arguments and to the recomputed plan hash; exact decision (iff) and refusal-code table. Tied to the code by the hook-exposed store (explicit clocks) and a live MCP server with clock skew, mutations, restarts; concurrent pairs probed on the binary. Partial: scheduling is outside the sequential model.",
-         "Trusted: Coq kernel + vm_compute; hand-written model; gen_tables.py (TTL); hooks mcp::verif_token and verif_hooks::skew; Python MCP client; premises: SHA-256 injective on plan data, random tokens distinct."),
-}
+import glob, os
+CLAIMS = {}
+for f in sorted(glob.glob('/verif/claims/C*.json')):
+    d = json.load(open(f)); CLAIMS[os.path.basename(f)[:-5]] = (d['text'], d['note'])
 checks = []
 for p in props:
     if p['id'] in CLAIMS:
